@@ -1,3 +1,4 @@
+import json
 """Bounded stand-in for C17: every shipped context recognises the hashes of each of its own schemes;
 the registry loads a hasher carrying the requested name and passlib.hash exposes that same object.
 
@@ -326,6 +327,40 @@ def build(tier, rng):
         g.case(first[:24])
         outs.append(o.stdout.strip().splitlines()[-1] if o.stdout.strip() else "ERR " + o.stderr[-200:])
     g.check(len(outs) == 2 and outs[0] == outs[1] and not outs[0].startswith("ERR"), "import-order:scheme-lists-differ", "scheme lists depend on whether passlib.hosts or passlib.apache is imported first", {"apache_first": outs[0][:300], "hosts_first": outs[1][:300] if len(outs) > 1 else None})
+    groups.append(done(g))
+    # ---- legacy spellings are look-up aliases only: they never become registry names
+    g = Group("alias-lookups-leave-the-registry-alone", "registry.get_crypt_handler", "fresh interpreter: every registry name looked up twice under its upper-case / hyphenated spelling (before and after the canonical "
+              "look-up): list_crypt_handlers() is unchanged, every listed name loads a hasher of that name, apps.master_context still builds")
+    prog2 = (
+        "import warnings, json; warnings.simplefilter('ignore')\n"
+        "from passlib import registry as r\n"
+        "before = sorted(r.list_crypt_handlers())\n"
+        "bad = []\n"
+        "for n in before[::2]:\n"
+        "    for spelling in (n.upper().replace('_', '-'), n.replace('_', '-'), n.title()):\n"
+        "        for _ in (1, 2):\n"
+        "            try: h = r.get_crypt_handler(spelling)\n"
+        "            except Exception as e: bad.append([spelling, type(e).__name__]); continue\n"
+        "            if h.name != n: bad.append([spelling, h.name])\n"
+        "after = sorted(r.list_crypt_handlers())\n"
+        "wrong = [x for x in after if getattr(r.get_crypt_handler(x, None), 'name', x) != x]\n"
+        "try:\n"
+        "    import passlib.apps as apps; apps.master_context.schemes(); ctx = 'ok'\n"
+        "except Exception as e: ctx = type(e).__name__ + ': ' + str(e)[:80]\n"
+        "print(json.dumps({'added': sorted(set(after) - set(before)), 'removed': sorted(set(before) - set(after)), 'wrong': wrong, 'bad': bad[:5], 'master_context': ctx, 'n': len(before)}))"
+    )
+    o = subprocess.run([_sys.executable, "-c", prog2], capture_output=True, text=True, timeout=300)
+    try:
+        res = json.loads(o.stdout.strip().splitlines()[-1])
+    except Exception:  # noqa: BLE001
+        res = {"error": (o.stderr or o.stdout)[-300:]}
+    g.case("alias-sweep")
+    g.check("error" not in res, "alias-lookup:crashed", "the alias sweep crashed", res)
+    if "error" not in res:
+        g.check(not res["added"] and not res["removed"], "alias-lookup:registry-names-changed", "alias look-ups changed list_crypt_handlers()", res)
+        g.check(not res["wrong"], "alias-lookup:name-mismatch", "a registry name loads a hasher with a different name", res)
+        g.check(res["master_context"] == "ok", "alias-lookup:context-broken", "apps.master_context no longer builds after alias look-ups", res)
+        g.check(not res["bad"], "alias-lookup:resolution", "a legacy spelling did not resolve to its canonical hasher", res)
     groups.append(done(g))
     return groups, sorted(set(skipped)), host
 
